@@ -31,7 +31,7 @@ def child_env(hash_seed):
     env['PYTHONHASHSEED'] = str(hash_seed)
     env['PYTHONDONTWRITEBYTECODE'] = '1'
     env['PYTHONWARNINGS'] = 'ignore'
-    pp = [VERIF + '/.deps', '/repo/src']
+    pp = [VERIF + '/.deps', os.environ.get('VERIF_REPO_SRC', '/repo/src')]
     env['PYTHONPATH'] = os.pathsep.join(pp)
     return env
 
@@ -134,6 +134,15 @@ def replay_inline(req):
     except Violation as v:
         print(f'violated: {v.kind}: {v.detail[:1500]}')
         return 1
+    except HarnessError:
+        raise
+    except Exception as e:  # noqa: BLE001
+        from pbt.common import library_exception
+        v = library_exception(e, req['case'])
+        if v is None:
+            raise
+        print(f'violated: {v.kind}: {v.detail[:1500]}')
+        return 1
     if ctx.known_hits:
         print('explained by known finding(s): ' + ', '.join(ctx.known_hits))
         return 3
@@ -195,6 +204,8 @@ def main(argv):
     mod = importlib.import_module(f'pbt.props.{prop.lower()}')
     evidence_path = os.path.join(VERIF, 'evidence', f'{prop}.json')
     os.makedirs(os.path.dirname(evidence_path), exist_ok=True)
+    if os.environ.get('VERIF_NO_EVIDENCE'):      # set only by tools/sensitivity.py (runs against mutated scratch copies)
+        evidence_path = os.devnull
 
     regression_failures = []
     try:
@@ -280,9 +291,6 @@ def main(argv):
         print(f'note: listed finding {fid} no longer fails on this tree (entry is stale, nothing suppressed by it matters)')
     print(f'{prop} {tier}: shards={len(results)} evaluations={evaluations} distinct_nontrivial={len(nontrivial)} '
           f'known_hits={known_hits} timeouts={timeouts} wall={ev["wall_s"]}s')
-    if len(nontrivial) < 2 or evaluations < 1:
-        print('HARNESS ERROR: vacuous run (fewer than 2 non-trivial cases)', file=sys.stderr)
-        return 2
     for path, text in regression_failures:
         out_lines.append((f'VIOLATION property={prop} replay={path}', f'  regression replay: {text}'))
     if out_lines:
@@ -290,6 +298,9 @@ def main(argv):
             print(a)
             print(b)
         return 1
+    if len(nontrivial) < 2 or evaluations < 1:
+        print('HARNESS ERROR: vacuous run (fewer than 2 non-trivial cases)', file=sys.stderr)
+        return 2
     return 0
 
 
